@@ -482,6 +482,27 @@ pub fn gen_compress_case(rng: &mut Rng, big: bool) -> CompressCase {
     CompressCase { cfg, hashlen: *rng.pick(&[4usize, 8, 16, 33, 64]), comp: if rng.chance(1, 2) { None } else { Some(if rng.chance(1, 6) { rng.range(7, 11) } else { rng.range(1, 6) } as u32) }, meta, src }
 }
 
+/// a chunk whose compressed form has exactly the chunk's own length (the boundary of the "store raw unless
+/// strictly smaller" rule): found by search
+pub fn find_equal_chunk(rng: &mut Rng, level: u32) -> Option<Vec<u8>> {
+    for _ in 0..6000 {
+        let l = rng.range(24, 80) as usize;
+        let k = rng.range(l as u64 / 3, l as u64 - 2) as usize;
+        let mut d: Vec<u8> = (0..k).map(|_| rng.next() as u8).collect();
+        while d.len() < l { let j = d.len() - k; d.push(d[j % k.max(1)]); }
+        if brotli_compress(level, &d).len() == d.len() { return Some(d); }
+    }
+    None
+}
+
+pub fn equal_size_case(rng: &mut Rng) -> Option<CompressCase> {
+    let level = rng.range(1, 9) as u32;
+    let d = find_equal_chunk(rng, level)?;
+    let mut src = d.clone();
+    if rng.chance(1, 2) { let extra: Vec<u8> = (0..d.len()).map(|_| rng.next() as u8).collect(); src.extend(extra); }
+    Some(CompressCase { cfg: crate::chunking::Cfg { algo: 'F', bits: 0, min: 0, max: d.len(), win: 0 }, hashlen: 64, comp: Some(level), meta: Default::default(), src })
+}
+
 pub fn compress_line(c: &CompressCase, archive: &[u8]) -> String {
     // tables for the model: unique chunk data -> (hash, compressed), source hash, header prefix hash
     let (chunks, _) = crate::chunking::run_chunker(&c.cfg, &c.src, vec![]).unwrap_or((vec![], vec![]));
@@ -508,7 +529,8 @@ pub fn suite_compress(dir: &str, seed: u64, thorough: bool, st: &mut Stats) {
     let nbig = if thorough { 4 } else { 1 };
     for i in 0..(n + nbig) {
         let big = i >= n;
-        let c = gen_compress_case(&mut rng, big);
+        let c = if !big && i % 10 == 7 { match equal_size_case(&mut rng) { Some(c) => { st.count("compress/equal-size-chunk"); c } None => gen_compress_case(&mut rng, false) } }
+                else { gen_compress_case(&mut rng, big) };
         let runs = if big { 2 } else { 3 };
         let mut first: Option<Vec<u8>> = None;
         for r in 0..runs {
